@@ -54,6 +54,18 @@ def handle (j : Json) : Except String Json := do
     | .error e => pure (Json.mkObj [("err", jStr (errStr e))])
     | .ok rows => pure (Json.mkObj [("rows", jMat rows), ("shape_ok", jBool (shapeAccepted n r rows)),
                                     ("needs", jNat (uniformsNeeded g n r))])
+  | "generate_draws" =>
+    -- Database.generate_draws on what the generators delivered (shape + row-major elements)
+    let n ← getNat j "n"
+    let r ← getNat j "R"
+    let vs ← getArr j "vars"
+    let vars : List (Delivered Float) ← vs.toList.mapM fun v => do
+      pure { dims := ← natList (← v.getObjVal? "dims"), flat := ← floatList (← v.getObjVal? "flat") }
+    match generateDraws n r vars with
+    | .error v => pure (Json.mkObj [("refused", jNat v)])
+    | .ok t => pure (Json.mkObj [("table", jArr (t.map jMat)),
+                                 ("accepted", jArr (vars.map fun d => jBool (dimsAccepted n r d.dims))),
+                                 ("counts", jNats (vars.map fun d => dimsCount d.dims))])
   | "halton" =>
     let b ← getNat j "base"
     let skip ← getNat j "skip"
